@@ -66,6 +66,9 @@ def plan(tier, seed):
     return specs
 
 
+NAME_COUNTER = [0]
+
+
 class Dest:
     """A destination path with its before/after snapshot oracle."""
 
@@ -75,7 +78,9 @@ class Dest:
         self.empty = empty
         self.dir = os.path.join(root, 'dest')
         os.makedirs(self.dir, exist_ok=True)
-        self.path = os.path.join(self.dir, 'cart.p8' if fmt == 'p8' else 'cart.p8.png')
+        NAME_COUNTER[0] += 1
+        self.base = carts.cart_basename(NAME_COUNTER[0])
+        self.path = os.path.join(self.dir, self.base + ('.p8' if fmt == 'p8' else '.p8.png'))
         self.fmt = fmt
         self.exists = exists
         self.regions, _ = carts.random_regions(rng, 'uniform')
@@ -272,8 +277,8 @@ class FmtDest(Dest):
         Dest.__init__(self, ctx, rng, fmt, exists, root)
         self.empty = empty
         ext = '.p8' if fmt == 'p8' else '.p8.png'
-        inp = os.path.join(self.dir, 'cart_in' + ext)
-        out = os.path.join(self.dir, 'cart_in_fmt' + ext)
+        inp = os.path.join(self.dir, self.base + '_in' + ext)
+        out = os.path.join(self.dir, self.base + '_in_fmt' + ext)
         # the file Dest wrote becomes the input; the watched destination is the _fmt file (an earlier run's output)
         if os.path.exists(self.path):
             os.replace(self.path, inp)
